@@ -86,9 +86,9 @@ Definition round_store (st : nstate) (r : tok) : sigstore :=
 
 (* every accepted `signature_reconstructed` message: the node's store for the round holds each
    signature of the message (under the sender's name), whatever it held before *)
-Theorem reconstructed_message_is_stored now st m h' o :
+Theorem reconstructed_message_is_stored put now st m h' o :
   String.eqb (m_event m) ev_sig_reconstructed = true ->
-  process_message now {| h_st := st; h_tr := [] |} m = ROk h' o ->
+  process_message put now {| h_st := st; h_tr := [] |} m = ROk h' o ->
   exists l, m_req m = MSigs (Some l) /\ l <> [] /\ o = None /\
     (slots_distinct (stamped m l) = true ->
      forall s, In s (stamped m l) -> holds (round_store (h_st h') (m_round m)) s) /\
@@ -127,19 +127,19 @@ Definition broadcast_of (h : hs) (m : message) (sigs : list rsig) : out_msg :=
    - sends one `signature_reconstructed` message carrying exactly those signatures,
    - restarts the round for the next batch and saves it,
    and when the reconstruction fails it writes nothing at all *)
-Theorem collecting_answer_is_broadcast now m req h inst i1 batch src parts :
+Theorem collecting_answer_is_broadcast put now m req h inst i1 batch src parts :
   sender_is_participant (i_payload inst) (m_sender m) req = true ->
   String.eqb (m_event m) ev_sgn_start = false ->
   do_live inst (m_event m) req = FOk i1 st_partial_collected (Some (RespSigningProcess batch src parts)) ->
   match reconstruct (h_st h) (m_round m) (i_payload i1) batch src parts with
   | Some sigs =>
       match do_fresh (dump_of i1) ev_sgn_restart (RDefault now) with
-      | FOk i4 _ _ => pm_tail now m req h inst =
+      | FOk i4 _ _ => pm_tail put now m req h inst =
                       ROk (save_fsm (emit h (WSend (broadcast_of h m sigs))) (m_round m) (dump_of i4)) None
-      | FErr => pm_tail now m req h inst = RErr (emit h (WSend (broadcast_of h m sigs)))
-      | FPanic => pm_tail now m req h inst = RPanic
+      | FErr => pm_tail put now m req h inst = RErr (emit h (WSend (broadcast_of h m sigs)))
+      | FPanic => pm_tail put now m req h inst = RPanic
       end
-  | None => pm_tail now m req h inst = RErr h
+  | None => pm_tail put now m req h inst = RErr h
   end.
 Proof.
   intros Hs Hev Hdo. unfold pm_tail. rewrite Hs. cbn [negb]. rewrite Hdo. cbv zeta.
@@ -149,7 +149,7 @@ Proof.
   change (mem_str st_partial_collected op_states) with false. cbv iota.
   destruct (reconstruct _ _ _ _ _ _) as [sigs|]; [|reflexivity].
   destruct (do_fresh _ _ _) as [i4 r4 x4| |]; try reflexivity.
-  unfold pm_prop. rewrite Hev. reflexivity.
+  unfold pm_prop, put_opt. rewrite Hev. destruct put; reflexivity.
 Qed.
 
 (* ---- what `reconstruct` produces meets the side condition: one signature per message id ---- *)
@@ -216,14 +216,14 @@ Qed.
 
 (* end to end at the node level: the signatures a node broadcasts after the collecting answer are
    held by every node that accepts the broadcast (no side condition left) *)
-Theorem broadcast_of_reconstruction_is_stored now st0 round p batch src parts sigs st m h' o :
+Theorem broadcast_of_reconstruction_is_stored put now st0 round p batch src parts sigs st m h' o :
   reconstruct st0 round p batch src parts = Some sigs ->
   String.eqb (m_event m) ev_sig_reconstructed = true -> m_req m = MSigs (Some sigs) ->
-  process_message now {| h_st := st; h_tr := [] |} m = ROk h' o ->
+  process_message put now {| h_st := st; h_tr := [] |} m = ROk h' o ->
   forall s, In s (stamped m sigs) -> holds (round_store (h_st h') (m_round m)) s.
 Proof.
   intros Hrec Hev Hreq H.
-  destruct (reconstructed_message_is_stored now st m h' o Hev H) as (l & Hl & _ & _ & Hholds & _).
+  destruct (reconstructed_message_is_stored put now st m h' o Hev H) as (l & Hl & _ & _ & Hholds & _).
   rewrite Hreq in Hl. inversion Hl; subst l.
   apply Hholds. apply stamped_slots_distinct. apply (reconstruct_msgids _ _ _ _ _ _ _ Hrec).
 Qed.
